@@ -456,7 +456,28 @@ def w_c13c():
         return "a diagram whose only component (p.ghost) is not a module of the architecture passes instead of raising a lookup error"
 
 
+def w_c15c():
+    g = make_graph(["a", "b", "c"], [("a", "b")])
+    r = Rule()
+    r.should_not()
+    r.import_anything()
+    first = _outcome(lambda: r.assert_applies(g))          # incomplete: a configuration error, as it must be
+    r.modules_that()
+    r.are_named("a")
+    later = _outcome(lambda: r.assert_applies(g))
+    f = Rule()
+    f.should_not()
+    f.import_anything()
+    f.modules_that()
+    f.are_named("a")
+    fresh = _outcome(lambda: f.assert_applies(g))
+    if later[:1] != fresh[:1] or (later[0] == "ERR") != (fresh[0] == "ERR"):
+        return (f"a rule object that was applied while still incomplete ({first[0]}) and completed afterwards gives {later[:2]}, "
+                f"the same builder calls without the early application give {fresh[:2]}")
+
+
 WITNESSES = {
+    "F-C15c": ("C15", w_c15c),
     "F-C13c": ("C13", w_c13c),
     "F-C08b": ("C08", w_c08b),
     "F-C10e": ("C10", w_c10e),
